@@ -47,6 +47,8 @@ pub fn profile(name: &str) -> Profile {
         "cacheqa" => Profile { name: "cacheqa", flavour: 1, tight: true, validators: true, costers: true, lifecycle: true, ..base },
         // the same quiescent history on Cache and on AsyncCache, compared observation by observation: C19
         "cachepair" => Profile { name: "cachepair", tight: true, validators: true, costers: true, lifecycle: true, ..base },
+        // lifecycle-heavy schedules: inserts racing wait / clear / close from three clients (C08, C10, C11, C12)
+        "cachel" => Profile { name: "cachel", quiescent: false, nclients: 3, lifecycle: true, tight: true, small_buf: true, flavour: 2, steps: (25, 70), ..base },
         "cachesa" => Profile { name: "cachesa", flavour: 1, quiescent: false, nclients: 3, lifecycle: true, tight: true, small_buf: true, steps: (30, 90), ..base },
         _ => panic!("unknown cache profile {}", name),
     }
@@ -131,6 +133,19 @@ impl Gen {
             rng.range(1, 9) as i64
         };
         let lifecycle = p.lifecycle;
+        if p.name == "cachel" {
+            return match r {
+                0..=49 => {
+                    self.next_val += 1;
+                    Op::Insert { idx, conf, val: self.next_val, cost, ttl_ns: 0, only: false }
+                }
+                50..=57 => Op::Get { idx, conf },
+                58..=63 => Op::Remove { idx, conf },
+                64..=75 => Op::Wait,
+                76..=87 => Op::Clear,
+                _ => Op::Close,
+            };
+        }
         match r {
             0..=34 => {
                 self.next_val += 1;
